@@ -1,4 +1,5 @@
 """C17 — the WTML and the returned data-set description match the files on disk (E1: CrossHair on the real code)."""
+from vlib.core import soft_attr as core_u
 import os
 
 import toasty.builder as tb
@@ -58,11 +59,12 @@ def template_injective(run, scheme):
         m = s.model()
         a = [m.eval(names[("a", k)]).as_string() for k in "123"]
         b = [m.eval(names[("b", k)]).as_string() for k in "123"]
-        pa = pio._tile_path(a[0], a[1], a[2], makedirs=False)
-        pb = pio._tile_path(b[0], b[1], b[2], makedirs=False)
+        from toasty.pyramid import Pos as _Pos
+        pa = pio.tile_path(_Pos(int(a[0]), int(a[1]), int(a[2])), makedirs=False)
+        pb = pio.tile_path(_Pos(int(b[0]), int(b[1]), int(b[2])), makedirs=False)
         if pa == pb:
             run.violation(nm, "pyramid.py:tile-path-collision:%s" % scheme, "distinct positions %r and %r are written to the same path %s" % (a, b, pa),
-                          "import sys\nfrom toasty.pyramid import PyramidIO\np = PyramidIO('/base', scheme=%r, default_format='png')\nsys.exit(1 if p._tile_path(*%r, makedirs=False) == p._tile_path(*%r, makedirs=False) else 0)\n" % (scheme, a, b), "E1:z3-strings")
+                          "import sys\nfrom toasty.pyramid import PyramidIO\np = PyramidIO('/base', scheme=%r, default_format='png')\nfrom toasty.pyramid import Pos\nsys.exit(1 if p.tile_path(Pos(*map(int, %r)), makedirs=False) == p.tile_path(Pos(*map(int, %r)), makedirs=False) else 0)\n" % (scheme, a, b), "E1:z3-strings")
         else:
             run.error(nm, "template collision %r / %r does not reproduce on the real paths" % (a, b))
     else:
@@ -103,8 +105,8 @@ def cases(tier):
 
 
 def check(run):
-    run.uses(tp.PyramidIO.__init__, tp.PyramidIO.tile_path, tp.PyramidIO._tile_path_LsYsYX, tp.PyramidIO._tile_path_LXY, tp.PyramidIO.get_path_scheme,
-             tb.Builder.__init__, tb.Builder.toast_base, tb.Builder.write_index_rel_wtml, tb.Builder.create_wtml_folder, tft.FitsTiler.tile, tft.FitsTiler._tile_toast)
+    run.uses(tp.PyramidIO.__init__, tp.PyramidIO.tile_path, core_u(tp.PyramidIO, "_tile_path_LsYsYX"), core_u(tp.PyramidIO, "_tile_path_LXY"), tp.PyramidIO.get_path_scheme,
+             tb.Builder.__init__, tb.Builder.toast_base, tb.Builder.write_index_rel_wtml, tb.Builder.create_wtml_folder, tft.FitsTiler.tile, core_u(tft.FitsTiler, "_tile_toast"))
     run.bound(fields="level / x / y as decimal strings of <= 2 digits (symbolic strings); positions n <= 12 for the integer rendering", schemes="L/Y/YX and LXY", formats="png, jpg, npy, fits",
               histories="fresh, repeated, repeated with override x TAN / TOAST",
               study_tile_format="symbolic image sizes / pixels (as C08), image default format != pyramid default format")
